@@ -1,7 +1,7 @@
 (* C08  Bytes sent to the terminal arrive once, in order, or the loss is flagged.
    The port model is polymorphic in the payload: the theorems hold for bytes carrying any ghost tag. *)
 From Coq Require Import ZArith List Bool.
-From Dmd Require Import Model.Bits Model.Fifo Model.Mem Model.Duart Proofs.FifoProofs Proofs.PortProofs Proofs.DuartProofs Proofs.DeviceRefine Model.Bus Proofs.BusDuart Gen.GenDuart Proofs.RegMapTie.
+From Dmd Require Import Model.Bits Model.Fifo Model.Mem Model.Duart Proofs.FifoProofs Proofs.PortProofs Proofs.DuartProofs Proofs.DeviceRefine Model.Bus Proofs.BusDuart Gen.GenDuart Proofs.RegMapTie Gen.GenPort Proofs.PortTie.
 Import ListNotations.
 Open Scope Z_scope.
 
@@ -139,3 +139,10 @@ Proof.
   split; [exact register_offsets_are_source_constants | reflexivity].
 Qed.
 Print Assumptions C08_register_map_is_source_register_map.
+
+(* enable / disable receiver and the receiver-enabled test are the source's functions (translated on every run) *)
+Theorem C08_receiver_helpers_are_source_functions :
+  forall (A : Type) (p : port A),
+    enable_rx p = g_enable_rx p /\ disable_rx p = g_disable_rx p /\ rx_enabled p = g_rx_enabled p.
+Proof. intros A p. repeat apply conj; [apply enable_rx_is_source | apply disable_rx_is_source | apply rx_enabled_is_source]. Qed.
+Print Assumptions C08_receiver_helpers_are_source_functions.
